@@ -235,6 +235,10 @@ func (c *XAConn) keepIfNecessary() {
 }
 
 func (c *XAConn) releaseIfNecessary() {
+	if c.xaBranchXid == nil {
+		// nothing is held: the branch context of a released connection was cleaned
+		return
+	}
 	if c.ShouldBeHeld() && c.xaBranchXid.String() != "" {
 		if c.isConnKept {
 			c.res.Release(c.xaBranchXid.String())
